@@ -105,21 +105,23 @@ func (h *helper) VerifyGroupForFork(g *types.Group, preGroup *types.Group, paren
 // ---------------------------------------------------------------- the node under test
 
 type node struct {
-	h        *helper
-	alive    bool
-	booted   bool
-	everIds  map[string][]byte // every id ever handed to the chain since the process started (mirror wipe)
-	budget   int               // physical writes still allowed; <0 = unlimited
-	aborted  bool
-	writes   int
-	hist     []string // ops since the last boot (for replay of a finding)
-	nBoot    int
-	inits    int
-	nExec    int
-	retained []*types.Group // objects the chain handed out in the previous raw-store check
-	pending  []string       // results of the two concurrent AddGroup calls, in the order they are reported as cadd lines
-	nConc    int
-	nRestart int
+	h            *helper
+	alive        bool
+	booted       bool
+	everIds      map[string][]byte // every id ever handed to the chain since the process started (mirror wipe)
+	budget       int               // physical writes still allowed; <0 = unlimited
+	aborted      bool
+	writes       int
+	hist         []string // ops since the last boot (for replay of a finding)
+	nBoot        int
+	inits        int
+	nExec        int
+	retained     []*types.Group // objects the chain handed out in the previous raw-store check
+	pending      []string       // results of the two concurrent AddGroup calls, in the order they are reported as cadd lines
+	nConc        int
+	badReads     int64
+	firstBadRead string
+	nRestart     int
 }
 
 func newNode() *node {
@@ -343,6 +345,72 @@ func (n *node) conc(g1, g2 *types.Group) (r1, r2 string, firstIs1 bool) {
 		}
 	}
 	return
+}
+
+// concRm races AddGroup(g) against removeFromCommonAncestor(h) (both released together) while reader
+// goroutines hammer the locked query paths. Every read must be self-consistent (a group returned for
+// height i carries GroupHeight i, a group returned for an id carries that id); returns the result of
+// the add and the number of inconsistent reads.
+func (n *node) concRm(g *types.Group, h uint64) (res string, badReads int64, firstBad string) {
+	gc := core.GetGroupChain()
+	n.everIds[string(g.Id)] = g.Id
+	top := gc.Count() + 2
+	ids := make([][]byte, 0, len(n.everIds))
+	for _, id := range n.everIds {
+		ids = append(ids, id)
+	}
+	n.h.gate = newGate()
+	gt := n.h.gate
+	var wg, rd sync.WaitGroup
+	var stop int32
+	var bad int64
+	var mu sync.Mutex
+	for r := 0; r < 3; r++ {
+		rd.Add(1)
+		go func(r int) {
+			defer rd.Done()
+			defer func() {
+				if x := recover(); x != nil {
+					atomic.AddInt64(&bad, 1)
+					mu.Lock()
+					firstBad = fmt.Sprint("reader panic: ", x)
+					mu.Unlock()
+				}
+			}()
+			for atomic.LoadInt32(&stop) == 0 {
+				for i := uint64(0); i <= top; i++ {
+					if x := gc.GetGroupByHeight(i); x != nil && x.GroupHeight != i {
+						atomic.AddInt64(&bad, 1)
+						mu.Lock()
+						firstBad = fmt.Sprintf("GetGroupByHeight(%d) returned a group with GroupHeight %d", i, x.GroupHeight)
+						mu.Unlock()
+					}
+				}
+				for _, id := range ids {
+					if x := gc.GetGroupById(id); x != nil && string(x.Id) != string(id) {
+						atomic.AddInt64(&bad, 1)
+					}
+					_ = gc.GetSyncGroupsById(id)
+				}
+			}
+		}(r)
+	}
+	wg.Add(2)
+	go func() { defer wg.Done(); res = guard(func() string { return addErr(gc.AddGroup(g)) }) }()
+	go func() {
+		defer wg.Done()
+		gt.wait()
+		guard(func() string {
+			core.VerifGroupChainRemoveFromCommonAncestor(&types.Group{GroupHeight: h, Header: &types.GroupHeader{}})
+			return ""
+		})
+	}()
+	wg.Wait()
+	atomic.StoreInt32(&stop, 1)
+	rd.Wait()
+	n.h.gate = nil
+	n.nConc++
+	return res, atomic.LoadInt64(&bad), firstBad
 }
 
 func listStr(l []string) string {
@@ -593,7 +661,7 @@ func (n *node) exec(line string) string {
 		return "unmodelled"
 	}
 	switch ws[0] {
-	case "add", "rmlast", "rmto", "restart", "crash", "conc", "fault":
+	case "add", "rmlast", "rmto", "restart", "crash", "conc", "concrm", "fault":
 		n.hist = append(n.hist, line)
 	}
 	if !n.alive {
@@ -631,6 +699,21 @@ func (n *node) exec(line string) string {
 			n.pending = []string{l2, r2, l1, r1}
 		}
 		return r1 + " " + r2 + " " + n.status()
+	}
+	if ws[0] == "concrm" && len(ws) == 6 {
+		// concrm <id> <pre> <parent> <create> <h>: AddGroup racing removeFromCommonAncestor(h), with readers
+		g, ok := parseGroup4(ws[1], ws[2], ws[3], ws[4])
+		h, err := strconv.ParseUint(ws[5], 10, 64)
+		if !ok || err != nil {
+			return "bad-op"
+		}
+		r, bad, fb := n.concRm(g, h)
+		n.pending = []string{"cadd " + ws[1] + " " + ws[2] + " " + ws[3] + " " + ws[4], r}
+		n.badReads += bad
+		if bad > 0 && n.firstBadRead == "" {
+			n.firstBadRead = fb
+		}
+		return r + " " + n.status()
 	}
 	if ws[0] == "cadd" && len(ws) == 5 {
 		// one of the two calls of the preceding conc, reported in the sequential order that explains them
@@ -1264,6 +1347,37 @@ func (g *gen) writeFaults() int {
 	return cnt
 }
 
+// concRm: AddGroup on top of the last group racing the fork-switch removal down to height h < top.
+// Either order leaves the chain at l[0..h] (add first: accepted, then removed; removal first: the add
+// is rejected), so the pair is written as cadd+rmto or rmto+cadd according to the add's result, and
+// the rmto line re-executed by the harness is a no-op on the real chain.
+func (g *gen) concRm() {
+	if len(g.listed) < 2 {
+		return
+	}
+	r := g.r
+	g.create++
+	h := r.Intn(len(g.listed) - 1)
+	id := g.pool[r.Intn(len(g.pool))]
+	line := fmt.Sprintf("concrm %s %s %s %d %d", id, g.last(), g.listed[0], g.create, h)
+	res := g.n.exec(line)
+	if len(g.n.pending) < 2 {
+		return
+	}
+	cadd := g.n.pending[0]
+	rm := fmt.Sprintf("rmto %d", h)
+	if strings.HasPrefix(res, "ok") {
+		g.emit(cadd)
+		g.emit(rm)
+	} else {
+		g.emit(rm)
+		g.emit(cadd)
+	}
+	g.emit("count")
+	g.emit("iter")
+	g.emit("dump")
+}
+
 // concStress: many rounds of two concurrent AddGroup calls on one chain, shrinking it in between.
 func (g *gen) concStress(rounds int) {
 	g.pool = idPool
@@ -1273,6 +1387,13 @@ func (g *gen) concStress(rounds int) {
 		g.resync()
 		if !g.alive {
 			return
+		}
+		if i%4 == 1 {
+			g.concRm()
+			g.resync()
+			if !g.alive {
+				return
+			}
 		}
 		if i%3 == 2 {
 			// grow the chain a little so that later rounds race on a longer list
@@ -1649,6 +1770,7 @@ func main() {
 	}
 
 	nCorpus := 0
+	var firstRun [][2]string // corpus ops and their answers at the very start of the process
 	nSeq := hx.ArgInt(a, "seqs", 60)
 	maxOps := hx.ArgInt(a, "maxops", 30)
 	depth := hx.ArgInt(a, "depth", 3)
@@ -1677,8 +1799,9 @@ func main() {
 		if part == 0 {
 			for _, f := range corpusFiles() {
 				for _, l := range readLines(f) {
-					emit(l)
+					first := emit(l)
 					nCorpus++
+					firstRun = append(firstRun, [2]string{l, first})
 				}
 			}
 			g.malformed()
@@ -1695,6 +1818,21 @@ func main() {
 		g.concStress(hx.ArgInt(a, "conc", 40))
 	}
 
+	// process-local history: the corpus scripts, which ran first in a fresh process, are run again
+	// now — after tens of thousands of other operations, rejected adds, crashes, races and write faults
+	// in this same process — and must answer exactly as they did (each script starts with a boot = wipe).
+	inDomain = false
+	for i, p := range firstRun {
+		again := n.exec(p[0])
+		if again != p[1] && !strings.HasPrefix(p[0], "cadd") {
+			n.hist = []string{fmt.Sprintf("corpus op #%d: %s", i, p[0])}
+			report("history-dependent-answer", fmt.Sprintf("op %q answered %q in a fresh process and %q at the end of this process", p[0], p[1], again))
+			break
+		}
+	}
+	if n.badReads > 0 {
+		report("concurrent-read-inconsistent", fmt.Sprintf("%d reads that ran concurrently with AddGroup / removeFromCommonAncestor were not self-consistent; first: %s", n.badReads, n.firstBadRead))
+	}
 	if mode == "search" {
 		fmt.Printf("SEARCH {\"evaluations\":%d,\"mutators\":%d,\"boots\":%d,\"restarts\":%d,\"exhaustive_sequences\":%d}\n", evals, mutators, n.nBoot, n.nRestart, nEx)
 		return
